@@ -102,6 +102,10 @@ type renderObs struct {
 	Groups       []renderGroup `json:"groups"`
 	DeployReps   int           `json:"deploy_reps"`
 	DeployOuts   []deployOut   `json:"deploy_outs"` // distinct (json sha, hash, rejected) of the Deploy runs
+	// digest of the one render context shared by all stepwise repetitions: when built, after the last one
+	CtxBefore    string `json:"ctx_before"`
+	CtxAfter     string `json:"ctx_after"`
+	CtxUnchanged bool   `json:"ctx_unchanged"`
 }
 
 type deployOut struct {
@@ -226,9 +230,34 @@ func (sc *renderScenario) env() (manifests.PackageEnvironment, error) {
 
 // renderOnce follows Deploy step by step and additionally reports the objects per file the
 // collection stage started from.
-func renderOnce(ctx context.Context, sc *renderScenario) (g renderGroup) {
+//
+// The render context (Package metadata, admitted configuration, images, environment) is built once
+// per scenario and the SAME object is handed to every repetition, as a caller that keeps its
+// configuration around would do: rendering must treat it as an input only.
+type renderShared struct {
+	apiPkg *adapters.GenericPackage
+	rctx   packages.PackageRenderContext
+	built  bool
+	before string // digest of rctx when it was built
+}
+
+func ctxDigest(rctx packages.PackageRenderContext) string {
+	b, err := json.Marshal(rctx) // map keys are sorted
+	if err != nil {
+		return "unmarshalable"
+	}
+	sum := sha256.Sum256(b)
+	return hex.EncodeToString(sum[:8])
+}
+
+// renderOnce renders with a context of its own (used by other modes as a reference render).
+func renderOnce(ctx context.Context, sc *renderScenario) renderGroup {
+	return renderOnceShared(ctx, sc, &renderShared{apiPkg: sc.apiPackage()})
+}
+
+func renderOnceShared(ctx context.Context, sc *renderScenario, sh *renderShared) (g renderGroup) {
 	fail := func(err error) renderGroup { return renderGroup{Err: renderErrClass(err)} }
-	apiPkg := sc.apiPackage()
+	apiPkg := sh.apiPkg
 	env, err := sc.env()
 	if err != nil {
 		return renderGroup{Err: "scenario-environment"}
@@ -240,35 +269,39 @@ func renderOnce(ctx context.Context, sc *renderScenario) (g renderGroup) {
 	if err != nil {
 		return fail(err)
 	}
-	// deployer.go:157-173
-	tmplCtx := apiPkg.TemplateContext()
-	configuration := map[string]any{}
-	if tmplCtx.Config != nil {
-		if err := json.Unmarshal(tmplCtx.Config.Raw, &configuration); err != nil {
-			return fail(fmt.Errorf("unmarshal config: %w", err))
-		}
-	}
-	verrs, err := packages.AdmitPackageConfiguration(ctx, configuration, pkg.Manifest, field.NewPath("spec", "config"))
-	if err != nil {
-		return renderGroup{Err: "config-admission"}
-	}
-	if len(verrs) > 0 {
-		return renderGroup{Err: "config-invalid"}
-	}
-	// deployer.go:174-185
-	images := map[string]string{}
-	if pkg.ManifestLock != nil {
-		for _, pi := range pkg.ManifestLock.Spec.Images {
-			resolved, err := packages.VerifImageWithDigest(imageprefix.Replace(pi.Image, nil), pi.Digest)
-			if err != nil {
-				return renderGroup{Err: "image-reference"}
+	if !sh.built {
+		// deployer.go:157-173
+		tmplCtx := apiPkg.TemplateContext()
+		configuration := map[string]any{}
+		if tmplCtx.Config != nil {
+			if err := json.Unmarshal(tmplCtx.Config.Raw, &configuration); err != nil {
+				return fail(fmt.Errorf("unmarshal config: %w", err))
 			}
-			images[pi.Name] = resolved
 		}
+		verrs, err := packages.AdmitPackageConfiguration(ctx, configuration, pkg.Manifest, field.NewPath("spec", "config"))
+		if err != nil {
+			return renderGroup{Err: "config-admission"}
+		}
+		if len(verrs) > 0 {
+			return renderGroup{Err: "config-invalid"}
+		}
+		// deployer.go:174-185
+		images := map[string]string{}
+		if pkg.ManifestLock != nil {
+			for _, pi := range pkg.ManifestLock.Spec.Images {
+				resolved, err := packages.VerifImageWithDigest(imageprefix.Replace(pi.Image, nil), pi.Digest)
+				if err != nil {
+					return renderGroup{Err: "image-reference"}
+				}
+				images[pi.Name] = resolved
+			}
+		}
+		sh.rctx = packages.PackageRenderContext{
+			Package: tmplCtx.Package, Config: configuration, Images: images, Environment: env,
+		}
+		sh.before, sh.built = ctxDigest(sh.rctx), true
 	}
-	rctx := packages.PackageRenderContext{
-		Package: tmplCtx.Package, Config: configuration, Images: images, Environment: env,
-	}
+	rctx := sh.rctx
 	before := digestFiles(pkg.Files)
 	// deployer.go:188-199
 	inst, err := packages.RenderPackageInstance(ctx, pkg, rctx,
@@ -383,8 +416,9 @@ func init() {
 		obs := renderObs{Reps: sc.Reps, DeployReps: sc.DeployReps}
 		index := map[string]int{}
 		outputs := map[string]struct{}{}
+		sh := &renderShared{apiPkg: sc.apiPackage()}
 		for i := 0; i < sc.Reps; i++ {
-			g := renderOnce(ctx, &sc)
+			g := renderOnceShared(ctx, &sc, sh)
 			kb, err := json.Marshal(g)
 			if err != nil {
 				return nil, err
@@ -419,6 +453,10 @@ func init() {
 				outputs[d.JSONSum+"/"+d.Hash] = struct{}{}
 			}
 		}
+		if sh.built {
+			obs.CtxBefore, obs.CtxAfter = sh.before, ctxDigest(sh.rctx)
+		}
+		obs.CtxUnchanged = obs.CtxBefore == obs.CtxAfter
 		obs.Outputs = len(outputs)
 		obs.AllIdentical = len(outputs) == 1 && len(obs.Groups) == 1
 		return obs, nil
